@@ -129,16 +129,19 @@ Lemma group_pieces_ok : forall e ws st,
   st_in e st -> (forall c i, In (Some (c, i)) ws -> in_cable e c i) -> Forall (piece_ok e) (group st ws).
 Proof.
   induction ws as [|[[c i]|] ws IH]; intros st Hst Hws.
-  - destruct st as [[[c f] p]|]; cbn; [|constructor]. constructor; [|constructor]. cbn in *. tauto.
+  - destruct st as [[[c f] p]|]; cbn; [|constructor]. constructor; [|constructor].
+    cbn in *. unfold in_cable in *. intuition lia.
   - assert (Hci : in_cable e c i) by (apply Hws; left; reflexivity).
     assert (Hws' : forall c i, In (Some (c, i)) ws -> in_cable e c i) by (intros; apply Hws; right; assumption).
     destruct st as [[[pc f] p]|]; cbn [group].
     + destruct (Nat.eqb_spec c pc) as [->|Hne].
       * destruct (Z.eqb_spec i (p - 1)) as [->|Hi].
-        -- apply IH; [|exact Hws']. cbn in *. repeat split; try tauto; lia.
-        -- constructor; [cbn in *; tauto|]. apply IH; [|exact Hws']. cbn. repeat split; try tauto; lia.
-      * constructor; [cbn in *; tauto|]. apply IH; [|exact Hws']. cbn. repeat split; try tauto; lia.
-    + apply IH; [|exact Hws']. cbn. repeat split; try tauto; lia.
+        -- apply IH; [|exact Hws']. cbn in *. unfold in_cable in *. intuition lia.
+        -- constructor; [cbn in *; unfold in_cable in *; intuition lia|].
+           apply IH; [|exact Hws']. cbn. unfold in_cable in *. intuition lia.
+      * constructor; [cbn in *; unfold in_cable in *; intuition lia|].
+        apply IH; [|exact Hws']. cbn. unfold in_cable in *. intuition lia.
+    + apply IH; [|exact Hws']. cbn. unfold in_cable in *. intuition lia.
   - cbn [group]. apply IH; [exact Hst|]. intros; apply Hws; right; assumption.
 Qed.
 
@@ -214,7 +217,7 @@ Proof.
   rewrite (sort_desc_unique Z.of_nat pins (rev (seq 0 n))).
   - destruct (Nat.ltb_spec (length ws) n).
     + rewrite skipn_rev_seq by lia. reflexivity.
-    + assert (length ws = n) by lia. subst n. reflexivity.
+    + assert (E : n = length ws) by lia. rewrite E. reflexivity.
   - rewrite Hp. apply Permutation_rev.
   - apply rev_seq_sorted.
 Qed.
